@@ -118,3 +118,102 @@ pub fn snap_heap<T>(
     }
     out.queues.push(queue);
 }
+
+/// Drop-in replacement for the `core::sync::atomic` items used by the shared
+/// channel handles. Every operation first calls an optional scheduling hook
+/// (set by a controlled-scheduler harness, e.g. loom) with the address of the
+/// atomic, and then performs the real operation. Without a hook the behaviour
+/// is identical to `core::sync::atomic::AtomicUsize`.
+pub mod sync {
+    pub use core::sync::atomic::Ordering;
+    use core::sync::atomic::AtomicUsize as Inner;
+
+    static HOOK: Inner = Inner::new(0);
+
+    /// Installs (or removes) the scheduling hook
+    pub fn set_sched_hook(hook: Option<fn(usize)>) {
+        HOOK.store(hook.map_or(0, |f| f as usize), Ordering::SeqCst);
+    }
+
+    #[inline]
+    fn sched_point(addr: usize) {
+        let raw = HOOK.load(Ordering::SeqCst);
+        if raw != 0 {
+            // Safety: only values produced from `fn(usize)` are stored
+            let f: fn(usize) = unsafe { core::mem::transmute(raw) };
+            f(addr);
+        }
+    }
+
+    /// See the module documentation
+    #[derive(Debug, Default)]
+    pub struct AtomicUsize(Inner);
+
+    #[allow(missing_docs)]
+    impl AtomicUsize {
+        pub const fn new(v: usize) -> Self {
+            AtomicUsize(Inner::new(v))
+        }
+        fn point(&self) {
+            sched_point(self as *const Self as usize)
+        }
+        pub fn load(&self, order: Ordering) -> usize {
+            self.point();
+            self.0.load(order)
+        }
+        pub fn store(&self, val: usize, order: Ordering) {
+            self.point();
+            self.0.store(val, order)
+        }
+        pub fn swap(&self, val: usize, order: Ordering) -> usize {
+            self.point();
+            self.0.swap(val, order)
+        }
+        pub fn fetch_add(&self, val: usize, order: Ordering) -> usize {
+            self.point();
+            self.0.fetch_add(val, order)
+        }
+        pub fn fetch_sub(&self, val: usize, order: Ordering) -> usize {
+            self.point();
+            self.0.fetch_sub(val, order)
+        }
+        pub fn compare_exchange(
+            &self,
+            current: usize,
+            new: usize,
+            success: Ordering,
+            failure: Ordering,
+        ) -> Result<usize, usize> {
+            self.point();
+            self.0.compare_exchange(current, new, success, failure)
+        }
+        pub fn compare_exchange_weak(
+            &self,
+            current: usize,
+            new: usize,
+            success: Ordering,
+            failure: Ordering,
+        ) -> Result<usize, usize> {
+            self.point();
+            self.0.compare_exchange(current, new, success, failure)
+        }
+        pub fn fetch_update<F>(
+            &self,
+            set_order: Ordering,
+            fetch_order: Ordering,
+            f: F,
+        ) -> Result<usize, usize>
+        where
+            F: FnMut(usize) -> Option<usize>,
+        {
+            self.point();
+            self.0.fetch_update(set_order, fetch_order, f)
+        }
+        pub fn get_mut(&mut self) -> &mut usize {
+            self.0.get_mut()
+        }
+        pub fn into_inner(self) -> usize {
+            self.0.into_inner()
+        }
+    }
+}
